@@ -413,6 +413,9 @@ class Engine:
         return c in self.subclasses(name)
 
     def instance_of(self, z, name):
+        d = self.prop.classes.get(name)
+        if d is not None and d.universal:
+            return z3.BoolVal(True)
         subs = self.subclasses(name)
         if not subs:
             raise Unsupported('class %s not declared' % name)
